@@ -25,7 +25,7 @@ ASSUMPTIONS = ['tolerance per pixel = amplitude * (Lipschitz(profile) * 64 ulp(f
                'with a bounding range the two boundary columns may be included or not']
 REQUIRED_CLASSES = ['asc', 'desc', 'path=array', 'path=int', 'path=rfi', 't=pgauss', 'f=voigt', 'f=sinc2',
                     'smear', 'smear+array_path', 'int_f', 'int_t', 'int_path', 'range=below', 'range=above',
-                    'range=inside', 'flags+range', 'negative_facet', 'special=wide', 'special=many_subsamples', 'special=float32', 'second_injection_on_moved_axis']
+                    'range=inside', 'flags+range', 'negative_facet', 'special=wide', 'special=many_subsamples', 'special=float32', 'second_injection_on_moved_axis', 'second_injection_on_gapped_axis']
 
 
 @st.composite
@@ -56,7 +56,7 @@ def strategy_(draw, tier):
     rng = draw(S.range_strategy())
     neg = draw(st.sampled_from([None] * 9 + ['path_len', 't_len', 'bp_len', 'path_type', 't_type', 'bp_type']))
     return dict(g=g, sig=sig, opts=opts, range=rng, neg=neg, special=special,
-                reshift=draw(st.sampled_from([None, None, None, 3.5, 1000.0, -2.0])))
+                reshift=draw(st.sampled_from([None, None, None, 3.5, 1000.0, -2.0, 'gap', 'gap'])))
 
 
 def strategy(tier):
@@ -188,7 +188,16 @@ def run_case(case, ctx):
     # t_i is the frame's OWN time axis: after the user moves it, a second injection must follow the new axis
     if case.get('reshift') is not None and rng is None and sg['path']['kind'] != 'array' and sg['t']['kind'] != 'array' and not obs.violations:
         obs.cls('second_injection_on_moved_axis')
-        fr.ts = np.asarray(fr.ts) + case['reshift'] * ax.dt
+        if case['reshift'] == 'gap':
+            # a user-assigned axis that is not uniformly spaced (two scans with a slew gap); the sub-sample integration grid is only
+            # defined for a contiguous axis, so those cases move the axis uniformly
+            new_ts = np.asarray(fr.ts, dtype=float) + 3.5 * ax.dt
+            if ax.T >= 2 and not opts['integrate_path'] and not opts['integrate_t_profile']:
+                new_ts[ax.T // 2:] += 7.5 * ax.dt
+                obs.cls('second_injection_on_gapped_axis')
+            fr.ts = new_ts
+        else:
+            fr.ts = np.asarray(fr.ts) + case['reshift'] * ax.dt
         before2 = fr.data.copy()
         ok, got2 = core.call(obs, 'add_signal[second, moved ts]', fr.add_signal, S.stg_path(stg, ax, sg['path'], smear),
                              S.stg_t(stg, ax, sg['t']), S.stg_f(stg, ax, sg['f']), S.stg_bp(stg, ax, sg['bp']), *pos, **kw)
